@@ -228,6 +228,11 @@ def cases(tier):
                 continue
             heavy = fam in ("range2", "relpose")
             out.append(Case("%s-%s" % (fam, kind), _case(fam, kind, deep=False), timeout=30 if tier == "quick" else 300, old_timeout=60 if tier == "quick" else 300, validate=2, shards=4 if heavy and kind in ("SE2", "SE3") else 1, val_tol=1e-3, feas_timeout_ms=1500))
+    import os
+
+    if os.environ.get("VERIF_C16_DEEP") == "1":
+        # probing aid only (not part of any registered command): the entries documented as NOT decided
+        out.append(Case("relpose-SE2-deep", _case("relpose", "SE2", deep=True), timeout=60, old_timeout=120, validate=1, shards=4, val_tol=1e-3, feas_timeout_ms=1500))
     # histories: the edge was already differentiated at another state (caches / remembered sparsity on the edge object)
     for fam, kind, mode in [("relpos", "R2", "inplace"), ("relpos", "SE2", "inplace"), ("prior", "R2", "estimate"), ("prior", "SE2", "inplace"), ("range2", "R2", "inplace"), ("range2", "R2", "rebind"), ("range2", "R2", "estimate"), ("midpoint", "R2", "rebind")]:
         out.append(Case("history-%s-%s-%s" % (mode, fam, kind), _case(fam, kind, history=mode), timeout=30 if tier == "quick" else 300, old_timeout=60 if tier == "quick" else 300, validate=2, val_tol=1e-3, feas_timeout_ms=1500))
